@@ -186,5 +186,22 @@ CHECKS['C12'] = dict(
           'previous token, input ending in non-space white space.'),
 )
 
-NOT_APPLICABLE = {p: PENDING for p in ['C01', 'C02', 'C03', 'C04', 'C05', 'C07',
+CHECKS['C04'] = dict(
+    engine='E2 tables + E1 pyvc + E4',
+    level='other',
+    ref='DESIGN.md 4 (C04)',
+    technique='grammar facts on the extracted grammar (exhaustive over productions); deductive transition contracts (path-complete, z3) on the real lexer methods auto_semi / _set_tokens / _get_update_token / _create_semi_token; bounded differential stand-in',
+    text=('Decided for all inputs relative to ply\'s error detection: exactly the 7.9 statement kinds have an AUTOSEMI alternative, each '
+          'paired with a SEMI twin that runs the same action to an equal node (identical trees with or without the semicolon), and '
+          'neither empty statements nor for headers accept one; auto_semi returns a semicolon exactly under the 7.9.1 condition '
+          'phrased over the lexer state (end of input, `}`, or preceding LINE_TERMINATOR token, never for a semicolon) and pushes the '
+          'offending token back once; the restricted keywords produce a semicolon at the line terminator. That "preceding raw token '
+          'is a line terminator" coincides with "a line terminator occurred since the previous token" is the representation '
+          'invariant whose failures (comments) are the recorded findings F10a-c; postfix restriction missing is F11. The complete '
+          'statement over all programs and layouts is only a bounded differential, hence "other".'),
+    note=('Trusted: ply calls p_error with the offending token. Known findings F10a, F10b, F10c, F11. Repo fix: U+2028/9 are line '
+          'terminators between tokens.'),
+)
+
+NOT_APPLICABLE = {p: PENDING for p in ['C01', 'C02', 'C03', 'C05', 'C07',
                                         'C13', 'C19']}
